@@ -12,7 +12,7 @@
                        been checked against the codeword at sampled positions), long division, Horner.
    Output: the model result if model and spec agree, else `SPECDIFF ...`.  Where the outcome depends on
    debug assertions the line is `D0 <release result> | D1 <checked result>`.
-   The par_* models are run for thread counts 1,2,3,5,16,64 and must agree. *)
+   The par_* models are run for thread counts 1,2,5,16 and must agree. *)
 module ZZ = Z
 open Model
 
@@ -485,7 +485,14 @@ let () =
       let dir = Filename.temp_file "c08oracle" ".d" in
       Sys.remove dir; Sys.mkdir dir 0o700;
       let ocs = Array.init jobs (fun k -> open_out (Printf.sprintf "%s/in%d" dir k)) in
-      List.iteri (fun i l -> output_string ocs.(i mod jobs) l; output_char ocs.(i mod jobs) '\n') lines;
+      (* longest lines first, each to the least loaded worker (cost estimate: length^1.5) *)
+      let load = Array.make jobs 0.0 in
+      let sorted = List.sort (fun a b -> compare (String.length b) (String.length a)) lines in
+      List.iter (fun l ->
+          let k = ref 0 in
+          Array.iteri (fun j x -> if x < load.(!k) then k := j) load;
+          load.(!k) <- load.(!k) +. (float_of_int (String.length l) ** 1.5) +. 1000.0;
+          output_string ocs.(!k) l; output_char ocs.(!k) '\n') sorted;
       Array.iter close_out ocs;
       let q = Filename.quote in
       let cmd = String.concat " " (List.init jobs (fun k ->
